@@ -1,5 +1,5 @@
 (* C09 — what the correspondence check evaluates on every case. *)
-From Yv Require Export Common.Base C09.Kernel C09.Model C09.Spec.
+From Yv Require Export Common.Base C09.Kernel C09.Model C09.Spec C09.Symlink.
 
 (* One case: the files that exist when the shell starts, the items of the
    script, the observation made before the first item and the steps observed, in
@@ -8,7 +8,15 @@ From Yv Require Export Common.Base C09.Kernel C09.Model C09.Spec.
    one when its redirections are refused), the steps of the body, and one after
    the command.  The script stops when the shell exits; the last step then
    shows the state the shell exits with. *)
-Definition case := (fsys * list item * obs * list step)%type.
+Definition script_case := (fsys * list item * obs * list step)%type.
+
+(* A second, small kind of case, run by the real binary on the real OS (the
+   simulated OS does not follow symbolic links): a directory of names (regular
+   files, FIFOs, a device, directories, symbolic links), the name that
+   `set -C; { :; } > name` was applied to, and what was observed. *)
+Definition link_case := (list (N * lnode) * N * verdict_nc)%type.
+
+Definition case := (script_case + link_case)%type.
 
 (* ---- oracle over the whole script (implementation's observations only) ---- *)
 
@@ -27,7 +35,7 @@ Fixpoint has_exec (i : item) : bool :=
   match i with
   | ICmd c | ISubst c => exec_like (c_kind c)
   | IGroup _ _ body | IDot _ _ _ body => existsb has_exec body
-  | IPipe _ | IStartup _ | ILimit _ | INoclobber _ => false
+  | IPipe _ | IStartup _ | ILimit _ | INoclobber _ | IErrexit _ => false
   end.
 
 (* the table an exiting command must leave behind: the one before the command
@@ -79,6 +87,10 @@ Fixpoint oracle_item (outer : oref) (st : ost) (i : item) (sts : list step) : or
       | INoclobber b =>
           if negb (restored (ob_tab before) (ob_tab (st_after s1))) then OBad 2%N
           else OCont (mkO b (o_lim st) (st_after s1)) rest
+      | IErrexit _ =>
+          (* when the shell exits is not the oracle's business; the table it
+             exits with is *)
+          if negb (restored (ob_tab before) (ob_tab (st_after s1))) then OBad 2%N else go_on
       | IStartup _ =>
           (* the script is opened: one new internal descriptor, or - if that
              fails - nothing at all *)
@@ -250,7 +262,32 @@ Definition kst_of_obs (files : fsys) (o : obs) : kst :=
 Definition initial_ok (o : obs) : bool :=
   forallb (fun p : N * fdent => if e_cx (snd p) then N.leb 10 (fst p) else N.ltb (fst p) 10) (ob_tab o).
 
-Definition run_case (c : case) : verdict :=
+Definition lfs_of (l : list (N * lnode)) : lfs :=
+  fun n => match find (fun p : N * lnode => N.eqb (fst p) n) l with
+           | Some p => Some (snd p)
+           | None => None
+           end.
+
+Definition lnode_eqb (a b : lnode) : bool :=
+  match a, b with
+  | LReg, LReg | LFifo, LFifo | LDev, LDev | LDir, LDir => true
+  | LLink x, LLink y => N.eqb x y
+  | _, _ => false
+  end.
+
+Definition verdict_nc_eqb (a b : verdict_nc) : bool :=
+  match a, b with
+  | Created, Created | Refused, Refused => true
+  | Opened x, Opened y => lnode_eqb x y
+  | _, _ => false
+  end.
+
+(* Linux follows at most 40 links; the generated chains are much shorter *)
+Definition run_link_case (c : link_case) : verdict :=
+  let '(l, name, observed) := c in
+  if verdict_nc_eqb (noclobber_open 40 (lfs_of l) name) observed then 0%N else 11%N.
+
+Definition run_script_case (c : script_case) : verdict :=
   let '(files, items, o0, sts) := c in
   (* oracle first: evaluated on the implementation's observations only *)
   match (if initial_ok o0 then oracle_steps (mkO false None o0) items sts else 9%N) with
@@ -259,9 +296,15 @@ Definition run_case (c : case) : verdict :=
       match cmp_obs [] s0 o0 with
       | None => 1%N
       | Some m =>
-          if cmp_steps m (run_script (mkSh s0 false) items) sts then 0%N else 1%N
+          if cmp_steps m (run_script (mkSh s0 false false) items) sts then 0%N else 1%N
       end
   | v => v
+  end.
+
+Definition run_case (c : case) : verdict :=
+  match c with
+  | inl sc => run_script_case sc
+  | inr lc => run_link_case lc
   end.
 
 Definition run_cases := run_cases_with run_case.
